@@ -6,8 +6,10 @@
 // peaked integrands are checked the same way; 2-d refinement against the 1-d results.
 #include "common.hpp"
 #include "engines.hpp"
+#include "mpienv.hpp"
 
 #include "hep/mc.hpp"
+#include "hep/mc-mpi.hpp"
 
 #include <algorithm>
 #include <cmath>
@@ -471,6 +473,50 @@ static void real_runs(report& r, bool thorough)
     vf::script_engine::table().clear();
 }
 
+// the same chain check on mpi_vegas under the MPI shim: the grid of iteration k+1 must equidistribute the
+// *reduced* adjustment data recorded in result k
+template <typename T>
+static void mpi_runs(report& r)
+{
+    std::string const tn = vf::type_name<T>();
+    for (int world : {2, 3})
+    for (T width : {T(1e-1L), T(1e-3L)})
+    for (sz bins : {sz(4), sz(8)})
+    {
+        std::string const id = tn + " mpirun world=" + std::to_string(world) + " width=" + vf::dec(width) + " bins=" + std::to_string(bins);
+        if (!r.want(id)) continue;
+        r.eval();
+        vf::script_engine::table().clear();
+        vf::script_engine::salt() = 777;
+        T const alpha = T(1.5);
+        vf::mpi_env env(world);
+        auto chk0 = hep::make_vegas_chkpt<T, vf::script_engine>(bins, alpha);
+        std::vector<std::string> texts(world);
+        auto out = env.run([&](int rank) {
+            auto c = hep::mpi_vegas(MPI_COMM_WORLD, hep::make_integrand<T>(peak<T>{T(0.3L), width}, 2), std::vector<sz>(6, 101),
+                hep::make_vegas_chkpt<T, vf::script_engine>(bins, alpha), vf::never_stop_mpi());
+            std::ostringstream o; c.serialize(o); texts[rank] = o.str();
+            if (rank == 0) chk0 = c;
+        });
+        if (!out.ok) { r.violate("mpi-run-failed", id, id + ": " + out.what); continue; }
+        for (int k = 1; k < world; ++k) if (texts[k] != texts[0]) { r.violate("mpi-ranks-hold-different-grids", id, id + ": rank " + std::to_string(k) + " returns a different checkpoint than rank 0"); break; }
+        auto const& res = chk0.results();
+        for (sz k = 0; k != res.size(); ++k)
+        {
+            auto const nextpdf = (k + 1 < res.size()) ? res[k + 1].pdf() : chk0.pdf();
+            for (sz dim = 0; dim != 2; ++dim)
+            {
+                std::vector<T> d(res[k].adjustment_data().begin() + dim * bins, res[k].adjustment_data().begin() + (dim + 1) * bins);
+                r.state(); r.transition();
+                if (check_grid(r, grid_of(res[k].pdf(), dim), id, id + " iteration " + std::to_string(k), ""))
+                    check_refine(r, grid_of(res[k].pdf(), dim), alpha, d, grid_of(nextpdf, dim), id);
+            }
+        }
+        r.distinct(vf::hash_str(id));
+    }
+    vf::script_engine::salt() = 0;
+}
+
 template <typename T>
 static void for_type(report& r, int ai, bool extras)
 {
@@ -480,6 +526,7 @@ static void for_type(report& r, int ai, bool extras)
     {
         if (r.want_prefix(std::string(vf::type_name<T>()) + " 2d")) two_dim<T>(r);
         if (r.want_prefix(std::string(vf::type_name<T>()) + " run")) real_runs<T>(r, r.a().thorough());
+        if (r.want_prefix(std::string(vf::type_name<T>()) + " mpirun")) mpi_runs<T>(r);
     }
 }
 
